@@ -123,6 +123,12 @@ impl Check for C14 {
                 "const vtop{long}: any = [{{ t: 1 }}, {{ t: 2, l: [{{}}] }}]; let vcount{long}: number = 0; function vtopfn{long}(): any {{ vcount{long} += 1; return vtop{long}.length + vcount{long}; }} class VTop{long} {{ n: any = vtopfn{long}(); }} __log.push(\"top:\" + new VTop{long}().n);"
             )));
         }
+        if !inside && rng.chance(0.1) {
+            // every run dies while importing the always-failing internal source module lib:bad
+            if let Some(first) = case.tree.kids.first_mut() {
+                first.pre = format!("import {{ big as __big }} from \"lib:bad\";\n{}", first.pre);
+            }
+        }
         let reregister_lib = !inside && rng.chance(0.3);
         Scn { case, form, gc, tape: Tape::random(rng, 8), fuel: 400_000, unwrapped, reregister_lib }
     }
